@@ -246,6 +246,9 @@ def cfg_F2(c, layout, qepsg):
 
 def classify(F, Q, tol):
     """'in' clearly intersecting, 'out' clearly disjoint, 'band' within tol of merely touching."""
+    fb, qb = F.bounds, Q.bounds
+    if fb[0] - qb[2] > tol or qb[0] - fb[2] > tol or fb[1] - qb[3] > tol or qb[1] - fb[3] > tol:
+        return "out"
     d = F.distance(Q)
     if d > tol:
         return "out"
@@ -849,6 +852,165 @@ def run_pair_big(case):
 
 
 # =================================================================================================
+# many-vertex queries in another CRS on rasters with many tiles
+# =================================================================================================
+# The query's extreme point in the raster's CRS is NOT a corner of the query's own bounding box: the
+# north/south side of a lon/lat box is an arc in Albers / UTM (highest at the central meridian), the
+# constant-northing side of a projected box is an arc in lon/lat.  The rasters are large enough (500-800 km)
+# for that bulge (8-30 px) to cross tile boundaries; the pinned side is placed a few pixels beyond / short
+# of an internal tile boundary at the central meridian.
+LAYOUTS["2560x3072/256"] = ((2560, 3072), (256, 256))
+LAYOUTS["4096x5120/512"] = ((4096, 5120), (512, 512))
+DENSE = {
+    # id -> raster epsg, affine, layout, query epsg, pixel column of the projection's central meridian,
+    #       query half-widths in query-CRS units
+    "albers": (3577, (250.0, 0.0, -400000.0, 0.0, -250.0, -2850000.0), "2560x3072/256", 4326, 1600.0, (1.0, 2.5)),
+    "utm": (32755, (100.0, 0.0, 240000.0, 0.0, -100.0, 6350000.0), "4096x5120/512", 4326, 2600.0, (1.0, 2.5)),
+    "geo-albers": (4326, (0.0025, 0.0, 128.0, 0.0, -0.0025, -26.0), "2560x3072/256", 3577, 1600.0, (100e3, 250e3)),
+    "geo-utm": (4326, (0.001, 0.0, 144.4, 0.0, -0.001, -33.0), "4096x5120/512", 32755, 2600.0, (100e3, 200e3)),
+}
+DENSE_KINDS = ("dense-box", "apex-tri", "dense-apex-tri")
+DENSE_NSIDE = 64
+DENSE_OVERSHOOT = (6.0, 2.0, 0.5, -2.0)  # pixels by which the pinned side's extreme point passes the tile boundary
+DENSE_ASYM = (0.0, 0.6)  # the box reaches (1-a)*hw to the west and (1+a)*hw to the east of the central meridian
+_DENSE_CFG = {}
+
+
+def dense_cfg(rid):
+    c = _DENSE_CFG.get(rid)
+    if c is None:
+        epsg, A6, layout, qepsg, pin_col, hws = DENSE[rid]
+        c = dict(gbt=mk_gbt(epsg, A6, layout), F=tile_polys(A6, layout),
+                 F2=tile_polys_in(A6, layout, epsg, qepsg))
+        a0 = c["F2"][(0, 0)].area / _rect_area(tile_rects(layout)[(0, 0)])
+        c["tol2"] = TOL_PX * math.sqrt(a0)
+        _DENSE_CFG[rid] = c
+    return c
+
+
+def gen_dense():
+    tier = _TIER[0]
+    asym = DENSE_ASYM if tier == "quick" else DENSE_ASYM + (1.5,)
+    over = DENSE_OVERSHOOT if tier == "quick" else DENSE_OVERSHOOT + (12.0, 0.0625)
+    bnds = (2, 5) if tier == "quick" else (1, 2, 5, 7)
+    for rid in DENSE:
+        for kind, hwi, a, side, bi, o in itertools.product(DENSE_KINDS, (0, 1), asym, ("N", "S"), bnds, over):
+            yield (rid, kind, hwi, a, side, bi, o)
+
+
+def run_dense(case):
+    rid, kind, hwi, a, side, bi, o = case
+    epsg, A6, layout, qepsg, pin_col, hws = DENSE[rid]
+    c = dense_cfg(rid)
+    gbt, F, F2 = c["gbt"], c["F"], c["F2"]
+    yo, _ = layout_offsets(layout)
+    th = yo[1] - yo[0]
+    yb = yo[bi]
+    # the pinned side passes through pixel (pin_col, pin_row); the query extends 1.4 tiles to the other side
+    if side == "N":
+        pin_row, far_row = yb - o, yb - o + 1.4 * th
+    else:
+        pin_row, far_row = yb + o, yb + o - 1.4 * th
+    (qx, qy), (_, qy_far) = project_pts(
+        [aff_apply(A6, pin_col, pin_row), aff_apply(A6, pin_col, far_row)], epsg, qepsg
+    )
+    hw = hws[hwi]
+    xl, xr = qx - (1 - a) * hw, qx + (1 + a) * hw
+    if kind == "dense-box":
+        pts = densify(rect_pts(xl, min(qy, qy_far), xr, max(qy, qy_far)), DENSE_NSIDE)
+    else:
+        # the apex sits on the pinned side at the central meridian (or at the nearest end of the side)
+        ax = min(max(qx, xl), xr)
+        pts = [(ax, qy), (xl, qy_far), (xr, qy_far)]
+        if kind == "dense-apex-tri":
+            pts = densify(pts, DENSE_NSIDE)
+    what = (f"{rid} EPSG:{epsg} {layout}: {kind} in EPSG:{qepsg}, {side} side through pixel ({pin_col},{pin_row}), "
+            f"x [{xl!r},{xr!r}] y [{qy!r},{qy_far!r}], {len(pts)} vertices")
+    r = R()
+    g = geom.polygon(pts + [pts[0]], f"EPSG:{qepsg}")
+    got = as_idx_set(gbt.tiles(g), r, "tiles:geometry:other-crs:many-tiles", what)
+    readings = [
+        (F, Polygon(project_pts(pts, qepsg, epsg)), TOL_PX * aff_pixlen(A6)),
+        (F2, Polygon(pts), c["tol2"]),
+    ]
+    nreq, nband = _judge_sets(
+        r, readings, list(F), got,
+        f"tiles:geometry:missing:other-crs:many-tiles:{kind}",
+        f"tiles:geometry:extra:other-crs:many-tiles:{kind}",
+        what, exact=True,
+    )
+    # does the bulge matter here?  rows of tiles required beyond the boundary
+    rows = {i[0] for i in got}
+    beyond = (bi - 1 in rows) if side == "N" else (bi in rows)
+    r.outcome = f"dense:{rid}:{side}:{'past-boundary' if beyond else 'short'}:{'touch' if nband else 'clean'}"
+    r.counts = {"dense_required_tiles": nreq}
+    return r
+
+
+# =================================================================================================
+# same CRS, nearly aligned grids on long rasters
+# =================================================================================================
+# source = destination seen through a tiny rotation or shear (terms 1e-6 .. 5e-3, both signs) about the
+# raster's centre or corner.  Over 20 000 px the drift is 0.02 .. 100 px, so the tile a destination tile
+# depends on changes along the raster; a "pure scale + translation" shortcut is wrong for every one of them.
+LAYOUTS["2048x40000/512x2048"] = ((2048, 40000), (512, 2048))
+LAYOUTS["2048x40000/1024x1000"] = ((2048, 40000), (1024, 1000))
+LAYOUTS["40000x2048/2048x512"] = ((40000, 2048), (2048, 512))
+LAYOUTS["40000x2048/1000x1024"] = ((40000, 2048), (1000, 1024))
+DRIFT_ORIENT = {
+    "wide": ("2048x40000/512x2048", ("2048x40000/512x2048", "2048x40000/1024x1000")),
+    "tall": ("40000x2048/2048x512", ("40000x2048/2048x512", "40000x2048/1000x1024")),
+}
+DRIFT_TERMS = (1e-6, 1e-5, 1e-4, 5e-4, 1e-3, 5e-3)
+DRIFT_KINDS = ("rotation", "shear-x", "shear-y")
+
+
+def gen_drift():
+    tier = _TIER[0]
+    dbases = ("utm",) if tier == "quick" else ("utm", "flipx", "rot30")
+    terms = [sg * t for t in DRIFT_TERMS for sg in (1, -1)]
+    for dbase, orient, si, kind, t, pivot in itertools.product(
+        dbases, DRIFT_ORIENT, (0, 1), DRIFT_KINDS, terms, ("centre", "corner")
+    ):
+        yield (dbase, orient, si, kind, t, pivot)
+
+
+def run_drift(case):
+    dbase, orient, si, kind, t, pivot = case
+    dl, sls = DRIFT_ORIENT[orient]
+    sl = sls[si]
+    _, Ad, _ = BASES[dbase]
+    epsg = BASES[dbase][0]
+    (ny, nx), _ = LAYOUTS[dl]
+    if kind == "rotation":
+        P = (math.sqrt(1 - t * t), -t, 0.0, t, math.sqrt(1 - t * t), 0.0)
+    elif kind == "shear-x":
+        P = (1.0, t, 0.0, 0.0, 1.0, 0.0)
+    else:
+        P = (1.0, 0.0, 0.0, t, 1.0, 0.0)
+    if pivot == "centre":
+        M = aff_mul(aff_T(nx / 2, ny / 2), aff_mul(P, aff_T(-nx / 2, -ny / 2)))
+    else:
+        M = P
+    As = aff_mul(Ad, M)  # source pixel -> world; M: source pixel -> destination pixel
+    dst = mk_gbt(epsg, Ad, dl)
+    src = mk_gbt(epsg, As, sl)
+    # exact footprints in the destination pixel plane (pixel area 1)
+    D = {i: sbox(*rc) for i, rc in tile_rects(dl).items()}
+    S = {j: Polygon([aff_apply(M, x, y) for x, y in rect_pts(*rc)]) for j, rc in tile_rects(sl).items()}
+    drift = abs(t) * max(nx, ny) / (2 if pivot == "centre" else 1)
+    what = (f"dst {dbase} {dl} / src {sl} = dst through {kind} term {t!r} about the {pivot} "
+            f"(drift {drift:.3g} px), src affine {As}")
+    r = R()
+    deps = dst.grid_intersect(src)
+    nreq, nedges = judge_pairs(r, deps, D, S, 1.0, 1e-6, "overlap", "same-crs-nearly-aligned", kind, what)
+    dcls = "<0.5px" if drift < 0.5 else ("<5px" if drift < 5 else ">=5px")
+    r.outcome = f"drift:{kind}:{dcls}:edges={'=' if nedges == nreq else '+'}"
+    r.counts = {"edges_required": nreq, "edges_listed": nedges}
+    return r
+
+
+# =================================================================================================
 def slices(tier):
     _TIER[0] = tier
     return [
@@ -870,6 +1032,13 @@ def slices(tier):
         e1.Slice("pairs-cross-crs-bigtiles", gen_pair_big, run_pair_big,
                  "2x2 tiles of 2048 px, 7 CRS configurations (tile column symmetric about the central meridian / "
                  "generic) x pinned source node (inner / outer corners) x 9 destination grid nodes x sub-pixel offsets"),
+        e1.Slice("query-dense-cross-crs", gen_dense, run_dense,
+                 "rasters of 80-120 tiles (Albers, UTM, two lon/lat) x {densified box, apex triangle, densified apex "
+                 "triangle} in the other CRS x half-width x asymmetry about the central meridian x pinned N/S side x "
+                 "tile boundary x overshoot in pixels; geometry query exact"),
+        e1.Slice("pairs-same-crs-drift", gen_drift, run_drift,
+                 "2048x40000 / 40000x2048 px rasters (4x20 tiles) x src layout x {rotation, shear-x, shear-y} x terms "
+                 "+-{1e-6..5e-3} x pivot {centre, corner}; all tile pairs, exact footprints"),
     ]
 
 
@@ -886,6 +1055,11 @@ def main(ctx):
         "placements_cross_crs": list(XPLACE),
         "cross_crs_resolutions": {k: {str(e): r for e, r in v.items()} for k, v in XRES.items()},
         "densification_points_per_side": NSIDE,
+        "dense_queries": {"rasters": {k: [v[0], list(v[1]), v[2], v[3]] for k, v in DENSE.items()},
+                          "kinds": list(DENSE_KINDS), "points_per_side": DENSE_NSIDE,
+                          "overshoot_px": list(DENSE_OVERSHOOT), "asymmetry": list(DENSE_ASYM)},
+        "drift_terms": list(DRIFT_TERMS), "drift_kinds": list(DRIFT_KINDS),
+        "drift_layouts": {k: list(v[1]) for k, v in DRIFT_ORIENT.items()},
     }
     ctx.assumptions = [
         "a contact within 1e-6 pixel of merely touching is neither required nor forbidden",
